@@ -647,7 +647,7 @@ def kill_runs(ctx, drv, bl, workers=16):
     return per_case, nkill, len(jobs)
 
 
-def overtaken_writer_runs(ctx, drv, bl, prop="C15"):
+def overtaken_writer_runs(ctx, drv, bl, prop="C15", only_admin=False):
     """Two writer processes on one directory: the first is stopped on entry to each of its mutating system calls, a second process
     adds / updates the same user completely, then the first goes on.  If the first one reports failure, the directory is
     exactly what the second writer left (its record must not be damaged or removed by the loser's clean-up)."""
@@ -656,6 +656,8 @@ def overtaken_writer_runs(ctx, drv, bl, prop="C15"):
     for b in bl:
         c0 = b["case"]
         if c0.op != "add" or c0.had or getattr(c0, "tmp_xdev", False) or getattr(c0, "warm", False) or getattr(c0, "residue", False) or getattr(c0, "swapdir", False):
+            continue
+        if only_admin and not c0.admin:
             continue
         reg = b["run"]["parsed"]["region"]
         for k, idx in enumerate(mutating_indices(reg)):
@@ -689,6 +691,11 @@ def overtaken_writer_runs(ctx, drv, bl, prop="C15"):
                 ctx.violation(prop, "overtaken-writer:failed-%s-changed-store:before-%s" % (c.op, call["name"]),
                               "a second process added %s while the first was stopped before %s#%d; the first then reported failure, yet the directory "
                               "changed after the second writer had finished: %s" % (c.user, call["name"], idx, diff))
+            if second_ok and not any(os.path.exists(os.path.join(c.base, c.user + e)) for e in (".user", ".admin")):
+                # an acknowledged add whose record is gone once both writers are done: with an administrator this is a
+                # directory that was initialised "successfully" and has no administrator
+                ctx.violation("C16" if c.admin else prop, "overtaken-writer:acknowledged-record-missing:before-%s" % call["name"],
+                              "the second process's add of %s was acknowledged; after the first process finished (ok=%s) the user has no file" % (c.user, first_ok))
             if second_ok and first_ok:
                 # both acknowledged an add of the same user: exactly one of the two records may be there - a single whole file
                 v = view_of(c, drv.pi(c.base), None)
